@@ -52,7 +52,8 @@ SPEC = {
              'apply_transformers; cleanup light/heavy). Oracle: reference truth table output by output, inputs '
              'identical (order-preserving subset when removal requested), output count, new object, deep snapshot of '
              'the argument unchanged, size not larger, result well formed. Non-trivial: the result differs '
-             'structurally from the argument.'),
+             'structurally from the argument.'
+             " Added during the build: pass objects re-used across cases, list / tuple / iterator hand-over, unary chains, the empty label on a gate the passes work on, 'warm' cases (the same circuit object went through the passes before and had its outputs narrowed since) and a harness-defined pass that only copies and declares library passes before / after it (never in a left operand of |)."),
     'assumptions': ['reference truth tables from vlib/refsem.py'],
     'subs': [Sub('preserve', simp.cases, check_preserve, {'quick': 3000, 'thorough': 200000})],
     'required_classes': {'preserve': ['pass:RRG', 'pass:RRG+rm', 'pass:MU', 'pass:MDG', 'pass:MEG', 'top:pipe',
